@@ -1157,6 +1157,9 @@ func (vc *VC) unchangedFormula(a, b *Heap, oldNow string, except map[string]bool
 	vc.registerAllFamilies()
 	var fams []string
 	for f := range vc.famSort {
+		if strings.HasPrefix(f, "GV_") {
+			continue // ghost variables of the function under verification
+		}
 		if inSet(acc, f) && !inSet(except, f) {
 			fams = append(fams, f)
 		}
